@@ -108,10 +108,10 @@ func (in *Instance) Snapshot() string {
 
 // Result of one execution.
 type Result struct {
-	Verdict  sched.Verdict
-	Outcomes [][]string // per worker, per op
-	Snap     string     // final snapshot (only when every worker finished)
-	Invariant []string  // structural invariant violations of the final state
+	Verdict   sched.Verdict
+	Outcomes  [][]string // per worker, per op
+	Snap      string     // final snapshot (only when every worker finished)
+	Invariant []string   // structural invariant violations of the final state
 }
 
 // Key is what linearizability compares.
@@ -146,6 +146,7 @@ func Prepare(p Program) *Pending {
 		i := i
 		r := fsx.NewRunner(in.Views[i])
 		r.NoOwner = true
+		r.Guard = 0 // the scheduler decides deadlocks; the op must stay on the worker goroutine
 		res.Outcomes[i] = make([]string, len(p.Workers[i]))
 		progs = append(progs, func() {
 			for j, o := range p.Workers[i] {
@@ -201,6 +202,7 @@ func Sequential(p Program) (map[string]bool, error) {
 			for i := range runners {
 				runners[i] = fsx.NewRunner(in.Views[i])
 				runners[i].NoOwner = true
+				runners[i].Guard = 0
 				outs[i] = make([]string, len(p.Workers[i]))
 			}
 			pos := make([]int, len(p.Workers))
@@ -264,6 +266,10 @@ func Calls(kind string, reduced bool) [][]fsx.Op {
 		// either: they are issued as the primitive calls they consist of
 		r = append(r, []fsx.Op{{K: "Open", P: p, Flag: os.O_WRONLY | os.O_CREATE | os.O_TRUNC, Perm: 0o644, H: 0}, {K: "FWrite", H: 0, Data: "W"}, {K: "FClose", H: 0}})
 		one(fsx.Op{K: "Stat", P: p})
+		if reduced && (p == "/w" || p == "/w/a") {
+			// an open directory being read locks itself, then each entry
+			r = append(r, []fsx.Op{{K: "Open", P: p, Flag: os.O_RDONLY, H: 1}, {K: "FReadDir", H: 1, N: -1}, {K: "FClose", H: 1}})
+		}
 		if !reduced {
 			one(fsx.Op{K: "MkdirAll", P: p + "/m/n", Perm: 0o755})
 			one(fsx.Op{K: "Truncate", P: p, Size: 1})
